@@ -2,7 +2,7 @@
 //! (hashbrown's SipHash + SIMD group probing is out of CBMC's reach: a 4-operation history on the real HashMap did
 //! not finish in 20 min).  Compiled only under cfg(kani) in the overlay; `lru_index.rs` imports `HashMap` from here
 //! instead of `std::collections` under cfg(kani).  (The `entry` API was added for a VectorCache history harness that
-//! did not fit in memory — 3 operations at capacity 2 needed > 13 GB because of the heap-backed `CachedVector` — and is now used by the merge_knn_results harness (C06 O6.5).)
+//! did not fit in memory — 3 operations at capacity 2 needed > 13 GB because of the heap-backed `CachedVector` — and by a merge_knn_results harness (std sort_by + collect made even the 1+1-candidate row exceed 9 GB: removed).)
 //!
 //! Contract (part of every claim that uses it): a finite map with at most CAP entries — `insert` overwrites or adds,
 //! `remove` deletes, `get`/`get_mut`/`contains_key` look up by key equality, `len` counts entries.  Iteration order,
